@@ -692,6 +692,8 @@ func propC15(c *Ctx) string {
 	c15Ordered(c, v)
 	c15Single(c, v)
 	c15Fifo(c, v)
+	// queued service commands are executed first-in first-out: nothing inside the service re-queues a command
+	c17Queue(c, v)
 	c.NotDecide("end-to-end order under all schedules", "order inside mercury.Writer / bufio (trusted FIFO byte streams)", "order between different QoS levels (not promised)",
 		"Dequeue's random choice between temporary and stored queue (different published-QoS classes)")
 	c.Assume("Go channels are FIFO", "one MemoryBackend per broker")
@@ -941,7 +943,14 @@ func c15Fifo(c *Ctx, v *vocab) {
 	}
 	// sends inside function literals: a literal started with `go` runs without the caller's locks; it must take
 	// the global mutex itself before it sends (a parked hand-over goroutine is overtaken by later publishes)
-	for _, fi := range c.P.LibFuncs("broker") {
+	var brokerFuncs []*FuncInfo
+	for _, fi := range c.P.Funcs {
+		if shortPkg(fi.Pkg.PkgPath) == "broker" { // NEW helpers included: literals are not inlined
+			brokerFuncs = append(brokerFuncs, fi)
+		}
+	}
+	sort.Slice(brokerFuncs, func(i, j int) bool { return brokerFuncs[i].Name < brokerFuncs[j].Name })
+	for _, fi := range brokerFuncs {
 		if fi.Decl.Body == nil {
 			continue
 		}
